@@ -253,7 +253,12 @@ func vrtChoose(fr *frame, a []value) value {
 		panic(pathAbort{"assume-false"})
 	}
 	ts := fr.i.ts()
-	c := fr.i.decide("choose:"+tag, n, func(j int) *Term { return ts.Bool(true) })
+	c := fr.i.decide("choose:"+tag, n, func(j int) *Term {
+		if fx, ok := fixedInputs[tag]; ok && int64(j) != fx {
+			return ts.Bool(false) // VERIF_FIX (debugging aid)
+		}
+		return ts.Bool(true)
+	})
 	fr.i.recordChoice("choose", tag, int64(c))
 	return c
 }
